@@ -410,6 +410,11 @@ class SSHChannel(Generic[AnyStr], SSHPacketHandler):
             return
 
         if self._send_state in {'close_pending', 'closed'}:
+            if self._send_state == 'close_pending':
+                # Our close is waiting for buffered data to be sent, so
+                # keep the peer's window open or it may stop reading
+                self.send_packet(MSG_CHANNEL_WINDOW_ADJUST, UInt32(len(data)))
+
             return
 
         self._recv_window -= len(data)
